@@ -249,6 +249,9 @@ static int mc_parallel(const char *phase, long nshards, mc_shard_fn fn, void *ar
             }
             mc_sh->w[w].active = 0;
             fflush(stdout); fflush(stderr);
+#ifdef MC_GCOV
+            { extern void __gcov_dump(void); __gcov_dump(); }   /* lib/covaudit.py: workers leave through _exit, flush the line counters first */
+#endif
             _exit(0);
         }
         pids[w] = p;
